@@ -18,7 +18,13 @@ fn class_of(diff: &str) -> &'static str {
     let path = diff.split(':').next().unwrap_or("");
     let leaf = path.rsplit('/').next().unwrap_or("");
     if leaf == "conflict" {
-        "conflict-flag"
+        // direction: the document (left) says conflicted and the view does not ("missing": no patch
+        // raised the flag), or the view still says conflicted and the document does not ("stale")
+        if diff.contains("left true") {
+            "conflict-flag-missing"
+        } else {
+            "conflict-flag-stale"
+        }
     } else if path.contains("/marks") {
         "marks"
     } else if leaf == "text" {
@@ -200,13 +206,13 @@ impl Check for C08 {
                 if let Some(d) = first_diff(&before, &exp) {
                     let s1 = snap1.to_string();
                     let s2 = snap2.to_string();
-                    if before.to_string().contains("\"conflict\":true") != exp.to_string().contains("\"conflict\":true") || class_of(&d) == "conflict-flag" {
+                    if before.to_string().contains("\"conflict\":true") != exp.to_string().contains("\"conflict\":true") || class_of(&d).starts_with("conflict-flag") {
                         cx.count("pairs_differing_in_conflict_flag");
                     }
                     if s1.contains("counter") || s2.contains("counter") {
                         cx.count("pairs_differing_in_counter");
                     }
-                    if s1.contains("\"text\"") && s2.contains("\"text\"") && class_of(&d) != "conflict-flag" {
+                    if s1.contains("\"text\"") && s2.contains("\"text\"") && !class_of(&d).starts_with("conflict-flag") {
                         cx.count("pairs_differing_in_text");
                     }
                     cx.nontrivial(hist_fp ^ fnv(format!("{h1:?}{h2:?}").as_bytes()));
